@@ -444,6 +444,114 @@ func c04BeatFaults(s shape, r *vx.Rand) {
 	w.Quiesce(scenarioTimeout)
 }
 
+// lockIfExistsFirst: a pessimistic transaction whose FIRST lock call is LockKeys(lock only if exists + return values) on one
+// key WITHOUT a value (the tentative primary is un-set again, nothing is locked) — or an ordinary first call (control) —,
+// followed by ordinary lock calls that pick the real primary; the transaction then stays open over several heart-beat
+// periods while the clock moves past the ttl its locks were written with (ManagedLockTTL 20 ms, wall-clock heart-beats).
+// Heart-beats must keep the primary alive (`audit heartbeat`, C04 rule 6); an intruder that tries to lock a held key right
+// after a heart-beat must fail, and the store must still hold the transaction's locks (`audit held`, C01); then it commits.
+func lockIfExistsFirst(r *vx.Rand) {
+	old := atomic.SwapUint64(&transaction.ManagedLockTTL, 20)
+	defer atomic.StoreUint64(&transaction.ManagedLockTTL, old)
+	nKeys := 4 + r.Intn(2)
+	keys := keyPool[:nKeys]
+	w := hub.NewWorld(rec, hub.Options{Full: lean, Seed: r.U64(), Splits: pick(r, layoutsOf(1+r.Intn(3)))})
+	defer w.Close()
+	for _, k := range keys {
+		w.TrackKey(k)
+	}
+	// one key stays without value
+	missing := pick(r, keys)
+	var seeded [][]byte
+	for _, k := range keys {
+		if string(k) != string(missing) && r.Chance(60) {
+			seeded = append(seeded, k)
+		}
+	}
+	if !seed(w, seeded) {
+		return
+	}
+	a := w.NewClient("a")
+	step := func(f func()) bool { return runAll(w, scenarioTimeout, f) }
+	beats := beatCounter(w, a)
+	var held [][]byte
+	first := pick(r, []string{"if-exists-missing", "if-exists-missing", "if-exists-missing", "if-exists-present", "ordinary"})
+	rec.Count("c04:lock-if-exists-first:" + first)
+	if !step(func() {
+		a.Begin(true, pick(r, modes))
+		switch first {
+		case "if-exists-missing":
+			a.LockAt([][]byte{missing}, pick(r, []string{"re", "ren"}), "fresh")
+		case "if-exists-present":
+			if len(seeded) > 0 {
+				k := pick(r, seeded)
+				if a.LockAt([][]byte{k}, "re", "fresh") == "ok" {
+					held = append(held, k)
+				}
+			}
+		}
+		// the ordinary statements
+		for i := 1 + r.Intn(3); i > 0; i-- {
+			k := pick(r, keys)
+			dup := false
+			for _, h := range held {
+				dup = dup || string(h) == string(k)
+			}
+			if dup {
+				continue
+			}
+			if a.LockAt([][]byte{k}, pick(r, []string{"-", "r", "c"}), "fresh") == "ok" {
+				held = append(held, k)
+				if r.Chance(70) {
+					a.Set(k, val(0, 7, i))
+				}
+			}
+		}
+	}) {
+		return
+	}
+	if len(held) == 0 {
+		step(func() { a.Rollback() })
+		w.Quiesce(scenarioTimeout)
+		return
+	}
+	w.AuditHeld(a, held)
+	// open over several periods, the clock moving past the original ttl
+	alive := true
+	for i := 2 + r.Intn(2); i > 0 && alive; i-- {
+		base := beats.Load()
+		w.AdvanceClock(int64(15 + r.Intn(30)))
+		alive = waitBeat(beats, base, 400*time.Millisecond)
+	}
+	w.AuditHeartbeat(a, 1)
+	// the intruder
+	b := w.NewClient("b")
+	k := pick(r, held)
+	if !step(func() {
+		b.Begin(true, "2pc")
+		if b.Lock([][]byte{k}, "n") == "ok" {
+			b.Set(k, val(1, 7, 0))
+			b.Commit()
+		} else {
+			b.Rollback()
+		}
+	}) {
+		return
+	}
+	w.AuditHeld(a, held)
+	if !step(func() {
+		if r.Chance(80) {
+			a.Commit()
+		} else {
+			a.Rollback()
+		}
+	}) {
+		return
+	}
+	time.Sleep(12 * time.Millisecond)
+	w.Quiesce(scenarioTimeout)
+}
+
 func runC04() {
 	nShapes := 1500
 	if run.Thorough() {
@@ -491,6 +599,10 @@ func runC04() {
 			// no rollback may follow a primary commit that may have taken effect (rule 3)
 			c03Triple(r.Fork())
 			rec.Count("c04:family:triple")
+		}
+		if n%(20*thin) == 13 {
+			lockIfExistsFirst(r.Fork())
+			rec.Count("c04:family:lock-if-exists-first")
 		}
 		if n%(15*thin) == 5 {
 			slowOwnerScenario(r.Fork())
